@@ -98,6 +98,15 @@ func verifyFunc(prog *Program, fi *FuncInfo, fc *FuncContract, mode *ModeDef) (r
 	if mode != nil {
 		x.mode = mode.Name
 		res.Mode = mode.Name
+		if mode.Assume != nil {
+			x.modeTags = mode.Assume.Tags
+		}
+	}
+	// every mode name of any contract is a known flag (false unless it is the mode being verified)
+	for _, c := range prog.Contracts.Funcs {
+		for _, m := range c.Modes {
+			x.modeFlags[m.Name] = false
+		}
 	}
 	for _, m := range fc.Modes {
 		x.modeFlags[m.Name] = mode != nil && m.Name == mode.Name
@@ -395,4 +404,61 @@ func allTokens(cs *Contracts) []string {
 		}
 	}
 	return sortedKeys(set)
+}
+
+
+// structureObligations: syntactic facts the proofs rely on, re-checked on every run:
+// a package-level variable declared `pkgimmutable` is assigned (or has its address taken) by no non-test code.
+func structureObligations(prog *Program, tag string) []*Obligation {
+	var out []*Obligation
+	info := prog.Main.TypesInfo
+	for _, c := range prog.Contracts.PkgImmutable {
+		if tag != "" && !hasTag(c.Tags, tag) {
+			continue
+		}
+		name := c.Src
+		obj := prog.Main.Types.Scope().Lookup(name)
+		o := &Obligation{Func: "structure", Kind: "structure", Label: "package variable " + name + " is assigned by no non-test code", Tags: c.Tags,
+			Name: "structure[package variable " + name + " is assigned by no non-test code]", Trivial: true, Result: "unsat", Solver: "syntactic scan"}
+		if obj == nil {
+			// not declared in this build: nothing to protect
+			out = append(out, o)
+			continue
+		}
+		isIt := func(e ast.Expr) bool {
+			id, ok := unparen(e).(*ast.Ident)
+			return ok && info.ObjectOf(id) == obj
+		}
+		for _, f := range prog.Main.Syntax {
+			fn := prog.Fset.Position(f.Pos()).Filename
+			if strings.HasSuffix(fn, "_test.go") {
+				continue
+			}
+			ast.Inspect(f, func(n ast.Node) bool {
+				bad := false
+				switch st := n.(type) {
+				case *ast.AssignStmt:
+					for _, l := range st.Lhs {
+						if isIt(l) {
+							bad = true
+						}
+					}
+				case *ast.IncDecStmt:
+					bad = isIt(st.X)
+				case *ast.UnaryExpr:
+					bad = st.Op == token.AND && isIt(st.X)
+				}
+				if bad {
+					o.Result = "sat"
+					o.Trivial = false
+					o.Solver = "syntactic scan"
+					o.Pos = prog.Fset.Position(n.Pos())
+					o.Model = fmt.Sprintf("%s is written at %s", name, o.Pos)
+				}
+				return true
+			})
+		}
+		out = append(out, o)
+	}
+	return out
 }
